@@ -34,8 +34,7 @@ C["C01"]["jobs"].append(job("push-text-k4-mif1",".","VH_ReassemblerPush",["C01/"
 C["C01"]["outside"]=[x for x in REASM_OUT if not x.startswith("Push(")]+["Push(typ, raw) with text that does not parse (C04/C05)"]
 C["C02"]=reasm("C02")
 C["C02"]["jobs"]+=[job("clock-k3-2s",".","VH_Reassembler",["C02/"],{"k":3,"maxInFlight":2,"timeout_mode":4,"forcepush":2,"plain":1},Q,clock="sym",bounds="two pushes of SYSCALL records then one free operation (SYSCALL push or Maintain) with a 2s timeout and every time.Now() reading symbolic: events may leave the buffer by expiry, order must still hold"),
-   job("clock-k3-2s-anytype",".","VH_Reassembler",["C02/"],{"k":3,"maxInFlight":2,"timeout_mode":4},T,clock="sym",bounds="k=3 free operations, record types symbolic, 2s timeout, symbolic clock"),
-   job("clock-k3-5ms-mif3",".","VH_Reassembler",["C02/"],{"k":3,"maxInFlight":3,"timeout_mode":3},T,clock="sym",bounds="k=3, 5ms timeout, maxInFlight=3, symbolic clock")]
+   job("clock-k3-2s-anytype",".","VH_Reassembler",["C02/"],{"k":3,"maxInFlight":2,"timeout_mode":4},T,clock="sym",bounds="k=3 free operations, record types symbolic, 2s timeout, symbolic clock")]
 C["C02"]["assumptions"]=C["C02"]["assumptions"]+["clock jobs: each time.Now() returns an arbitrary non-decreasing instant"]
 C["C03"]=reasm("C03")
 C["C03"]["jobs"]+= [job("pin-ffffffff",".","VH_Reassembler",["C03/"],{"k":3,"maxInFlight":2,"pin":1},Q,bounds="k=3, first pushed sequence pinned to 0xFFFFFFFF"),
@@ -44,14 +43,12 @@ C["C10"]=reasm("C10")
 C["C10"]["jobs"]+=[job("api-k2-postclose2",".","VH_Reassembler",["C10/"],{"k":2,"maxInFlight":2,"postclose":2},Q,bounds="k=2 then Close, then 2 more pushes: bound, head rule and delivery-only-for-cause hold for them as before Close"),
    job("api-k3-maxduration",".","VH_Reassembler",["C10/"],{"k":3,"maxInFlight":2,"timeout_mode":6},Q,bounds="k=3 then Close; timeout = the largest time.Duration: nothing leaves the buffer for time"),
    job("api-k3-250years",".","VH_Reassembler",["C10/"],{"k":3,"maxInFlight":2,"timeout_mode":7},Q,bounds="k=3 then Close; timeout = 250 years"),
-   job("clock-k3-2s",".","VH_Reassembler",["C10/"],{"k":3,"maxInFlight":2,"timeout_mode":4,"forcepush":2,"plain":1},Q,clock="sym",bounds="two pushes of SYSCALL records then one free operation, 2s timeout, every time.Now() reading symbolic: an incomplete event in a non-full buffer leaves only once its timeout has elapsed; size bound and head rule as before"),
-   job("clock-k3-5ms-anytype",".","VH_Reassembler",["C10/"],{"k":3,"maxInFlight":1,"timeout_mode":3},T,clock="sym",bounds="k=3 free operations, record types symbolic, 5ms timeout, maxInFlight=1, symbolic clock")]
+   job("clock-k3-2s",".","VH_Reassembler",["C10/"],{"k":3,"maxInFlight":2,"timeout_mode":4,"forcepush":2,"plain":1},Q,clock="sym",bounds="two pushes of SYSCALL records then one free operation, 2s timeout, every time.Now() reading symbolic: an incomplete event in a non-full buffer leaves only once its timeout has elapsed; size bound and head rule as before")]
 C["C10"]["assumptions"]=C["C10"]["assumptions"]+["clock jobs: each time.Now() returns an arbitrary non-decreasing instant"]
 for P_ in ("C01",):
     C[P_]["jobs"]+=[job("api-k3-anywhere",".","VH_Reassembler",[P_+"/"],{"k":3,"maxInFlight":2,"window":0},Q,bounds="k=3 then Close, maxInFlight=2, sequence numbers anywhere in 0..2^32-1 (no common 2^24 window: orderings the sort treats as roll-over, in any mix)")]
 for P_ in ("C01","C03"):
-    C[P_]["jobs"]+=[job("clock-k3-2s",".","VH_Reassembler",[P_+"/"],{"k":3,"maxInFlight":2,"timeout_mode":4,"forcepush":2,"plain":1},Q,clock="sym",bounds="two pushes of SYSCALL records then one free operation, 2s timeout, symbolic clock: events may leave the buffer by expiry between the calls"),
-      job("clock-k3-5ms-anytype",".","VH_Reassembler",[P_+"/"],{"k":3,"maxInFlight":1,"timeout_mode":3},T,clock="sym",bounds="k=3 free operations, record types symbolic, 5ms timeout, maxInFlight=1, symbolic clock")]
+    C[P_]["jobs"]+=[job("clock-k3-2s",".","VH_Reassembler",[P_+"/"],{"k":3,"maxInFlight":2,"timeout_mode":4,"forcepush":2,"plain":1},Q,clock="sym",bounds="two pushes of SYSCALL records then one free operation, 2s timeout, symbolic clock: events may leave the buffer by expiry between the calls")]
     C[P_]["assumptions"]=C[P_]["assumptions"]+["clock jobs: each time.Now() returns an arbitrary non-decreasing instant"]
 c19=[job("nil-stream",".","VH_ReassemblerNilStream",["C19/"],bounds="symbolic maxInFlight (8 bit) and timeout (64 bit)"),
      job("api-k3-inf",".","VH_Reassembler",["C19/"],{"k":3,"maxInFlight":2},Q,bounds="k=3 then Close, post-Close Maintain/Close; infinite timeout")]
